@@ -214,6 +214,8 @@ class CrashWorld(World):
         self.slow = None  # (statement index, us) for the next op
         self.stats = collections.Counter()
         self.last_point = None
+        self.sib = None
+        self.sibgen = 0
         self._in_txn = False
         self._files_dirty = True
         self._last_key = None
@@ -236,7 +238,39 @@ class CrashWorld(World):
 
     def _release(self):
         seams.STMT.callback = None
+        if self.sib is not None:
+            st = getattr(self.sib, "storage_strategy", None)
+            self.sib = None
+            c = getattr(st, "conn", None)
+            if c is not None:
+                try:
+                    c.close()
+                except Exception:
+                    pass
         super()._release()
+
+    def mop_sibling(self, s):
+        """Traffic on a second, unrelated sqlite store in the same process (another file)."""
+        from aw_datastore import Datastore
+        from aw_datastore.storages import SqliteStorage
+
+        cb, seams.STMT.callback = seams.STMT.callback, None
+        try:
+            if self.sib is None:
+                self.sibgen += 1
+                self.sib = Datastore(SqliteStorage, testing=True, filepath=os.path.join(self.rundir, "sibling-%d.sqlite" % self.sibgen))
+                self.sib.create_bucket("s", type="t", client="c", hostname="h", created=us_to_dt(1_600_000_000_000_000))
+            bk = self.sib["s"]
+            if s["kind"] == "read":
+                bk.get(limit=1)
+            elif s["kind"] == "write":
+                bk.insert(mk_event(s["ev"]))
+            else:
+                bk.insert([mk_event(s["ev"]) for _ in range(3)])
+        finally:
+            seams.STMT.callback = cb
+        self.probes["sibling_store_traffic"] += 1
+        return {"ret": None, "exc": None}
 
     # ------------------------------------------------------------------ crash points
     def _on_stmt(self, sql, path):
@@ -342,9 +376,19 @@ class CrashWorld(World):
         w = World(self.backend, self.rundir)
         w.path = prefix
         cb, seams.STMT.callback = seams.STMT.callback, None
+        probe = None
         try:
             w.open()
             d = w.dump()
+            # recovery probe: the reopened store must behave like a store holding exactly that state --
+            # a bucket created now is born empty (rows orphaned by a half-done operation must not resurface)
+            try:
+                pb = w.ds.create_bucket("zz-recovery-probe", type="probe", client="probe", hostname="probe", created=us_to_dt(1_600_000_000_000_000))
+                born = len(pb.get(limit=-1))
+                if born:
+                    probe = "a bucket created after reopening the crashed database is born with %d events" % born
+            except Exception as e:
+                probe = "creating a bucket after reopening the crashed database raised %r" % (e,)
             w.close(clean=False)
         finally:
             seams.STMT.callback = cb
@@ -354,7 +398,7 @@ class CrashWorld(World):
             h += meta_item(b, {k: v["meta"][k] for k in ("id", "type", "client", "hostname", "created_us", "name", "data")})
             for t in v["events"]:
                 h += ev_item(b, t[1:])
-        res = (h & MASK, {b: len(v["events"]) for b, v in sorted(d.items())}, d)
+        res = (h & MASK, {b: len(v["events"]) for b, v in sorted(d.items())}, d, probe)
         self.dumps[key] = res
         self.stats["snapshots_reopened"] += 1
         for suf in ("", "-wal", "-journal", "-shm"):
@@ -372,8 +416,11 @@ class CrashWorld(World):
         m = self.model
         done = []
         for pt in self.pending:
-            hD, summ, dump = self._dump_snapshot(pt["key"])
+            hD, summ, dump, probe = self._dump_snapshot(pt["key"])
             best, tag, msg = m.find(hD, pt["n"], pt["n_ret"], pt["d"], self.lazy)
+            if best is not None and probe:
+                best, tag, msg = None, "recovery_probe", probe
+                self.stats["recovery_probe_failed"] += 1
             self.stats["crash_points_evaluated"] += 1
             pt["found"] = best
             pt["dump"] = dump
